@@ -56,9 +56,36 @@ def shape_rule(ctx, repo):
 CLASS_NAMES = ("BaseSamples", "Samples", "SMCSamples")
 
 
+def weights_guard_rule(ctx, repo):
+    """C16.shape (weights clause): a Samples set has weights exactly when it has all three densities -- whatever its size.  from_dict and concatenate
+    rely on the constructor to rebuild log_w / weights; a guard that also looks at the number of rows makes a one-row (or empty) piece of a
+    weighted set come back unweighted from a dictionary round trip or a concatenation."""
+    C = repo.cls("aspire.samples:Samples")
+    m = C.methods.get("__post_init__")
+    if m is None:
+        ctx.unknown("C16.shape", C.ident, "src/aspire/samples.py", "Samples.__post_init__ not found", disc="weights-guard")
+        return
+    guards = [n for n in walk_no_nested(m.node) if isinstance(n, ast.If) and any(
+        isinstance(c, ast.Call) and isinstance(c.func, ast.Attribute) and c.func.attr == "compute_weights" for b in n.body + n.orelse for c in ast.walk(b))]
+    if len(guards) != 1:
+        ctx.unknown("C16.shape", m.ident, loc_of(m), f"expected one guarded compute_weights() call in the constructor, found {len(guards)}", disc="weights-guard")
+        return
+    test = guards[0].test
+    # names used in the test, followed through one local assignment
+    exprs = [test]
+    for x in ast.walk(test):
+        if isinstance(x, ast.Name):
+            exprs += [a.value for a in walk_no_nested(m.node) if isinstance(a, ast.Assign) and any(isinstance(t, ast.Name) and t.id == x.id for t in a.targets)]
+    sized = [x for e in exprs for x in ast.walk(e) if (isinstance(x, ast.Call) and getattr(x.func, "id", None) == "len") or (isinstance(x, ast.Attribute) and x.attr in ("shape", "size", "ndim"))]
+    ctx.decide(not sized, "C16.shape", m.ident, loc_of(m, guards[0]), "the constructor computes the weights whenever the three densities are present (no condition on the size of the set)",
+               f"the constructor computes the weights only under `{ast.unparse(test)[:80]}`, which looks at the size of the set: a one-row piece of a weighted set keeps its weights through "
+               "selection (which re-attaches them) but comes back with log_w = weights = None from to_dict / from_dict and from concatenate, which rebuild through the constructor", disc="weights-guard")
+
+
 def run(ctx):
     repo = ctx.repo
     shape_rule(ctx, repo)
+    weights_guard_rule(ctx, repo)
     rbs = rebuilds(repo)
     ctx.count("rebuild_methods_folded", len(rbs))
     n_get = n_cat = 0
@@ -399,6 +426,9 @@ MUTANTS += [
 ]
 MUTANTS += [
     M("constructor squeezes the proposal log-density", _S, "self.log_q = self.array_to_namespace(self.log_q, dtype=self.dtype)", "self.log_q = self.array_to_namespace(self.log_q, dtype=self.dtype).squeeze()", "C16.shape"),
+]
+MUTANTS += [
+    M("constructor skips the weights for fewer than two samples", _S, "for x in [self.log_likelihood, self.log_prior, self.log_q]\n        ):\n            self.compute_weights()", "for x in [self.log_likelihood, self.log_prior, self.log_q]\n        ) and len(self.x) > 1:\n            self.compute_weights()", "C16.shape"),
 ]
 NEUTRALS = [
     M("from_dict stacks columns in mapping order (insertion order is kept in memory)", _S, "x = np.stack([samples[p] for p in parameters], axis=-1)", "x = np.stack(list(samples.values()), axis=-1)"),
